@@ -3,6 +3,7 @@ package main
 // Evaluation of contract expressions in a symbolic state; contract application at call sites; loop invariants.
 
 import (
+	"sync"
 	"fmt"
 	"go/types"
 	"math/big"
@@ -392,8 +393,11 @@ func (c *CEnv) preferPhi(fr *Frame, a *ssa.Phi, cur ssa.Value) bool {
 }
 
 var debugCache = map[*ssa.Function]map[string][]ssa.Value{}
+var debugMu sync.Mutex
 
 func debugNames(fn *ssa.Function) map[string][]ssa.Value {
+	debugMu.Lock()
+	defer debugMu.Unlock()
 	if m, ok := debugCache[fn]; ok {
 		return m
 	}
